@@ -33,8 +33,12 @@ class H(BaseException):
 
 HIER = {'B': B, 'S': S, 'Un': Un, 'H': H}
 ONLY = {'BaseException': BaseException, 'Exception': Exception, 'B': B, 'S': S, 'Un': Un, 'H': H}
-OUTCOMES = [None, 'B', 'S', 'Un', 'H']
-KINDS = ['coro', 'task', 'future']
+# 'Cancel': the awaitable ends with a CancelledError of its own (e.g. it awaited something that somebody else
+# cancelled) while nobody cancels the caller - for gather_excs this is a failure like any other BaseException
+OUTCOMES = [None, 'B', 'S', 'Un', 'H', 'Cancel']
+# 'done': a future that is already settled (result or exception) when gather_excs is called
+KINDS = ['coro', 'task', 'future', 'done']
+ONLY['CancelledError'] = aio.CancelledError
 
 
 class C20(Check):
@@ -45,11 +49,12 @@ class C20(Check):
         'single event loop in virtual time: delays are distinct multiples of the grid unit so the finishing order is exactly '
         'the scripted permutation',
         'only raised exceptions are generated; an awaitable that returns an exception object as its value is outside the domain',
-        'a cancelled awaitable (CancelledError) is not part of the hierarchy',
+        'an awaitable that ends in a CancelledError of its own is judged by type, not identity (asyncio.gather reports a '
+        'cancelled child as a fresh CancelledError); nobody ever cancels the caller',
     ]
-    rule = ('cases = lists of 0-5 awaitables (coroutine / task / future) each returning or raising B(Exception), S(B), '
-            'Un(Exception) or H(BaseException) after a scripted delay; every outcome combination x every finishing-order '
-            'permutation x every `only` in {BaseException, Exception, B, S, Un, H} for <= 3 awaitables (thorough 4), sampled at 4-5; '
+    rule = ('cases = lists of 0-5 awaitables (coroutine / task / future / already-settled future) each returning or raising '
+            'B(Exception), S(B), Un(Exception), H(BaseException) or a CancelledError of its own after a scripted delay; every outcome combination x every finishing-order '
+            'permutation x every `only` in {BaseException, Exception, B, S, Un, H, CancelledError} for <= 3 awaitables (thorough 4), sampled at 4-5; '
             'both gather_excs and raise_first_exc; non-trivial = >= 2 awaitables with >= 1 failure and a finishing order that '
             'differs from input order, or >= 2 failures; distinct = distinct cases')
 
@@ -65,7 +70,7 @@ class C20(Check):
                 for perm in itertools.permutations(range(n)):
                     for oi, only in enumerate(ONLY):
                         yield {'out': list(combo), 'order': list(perm), 'only': only,
-                               'kinds': [KINDS[(i + oi + sum(combo)) % 3] for i in range(n)]}
+                               'kinds': [KINDS[(i + oi + sum(combo)) % len(KINDS)] for i in range(n)]}
         rng = random.Random(seed * 7 + 1)
         for _ in range(25000 if tier == 'quick' else 500000):
             n = rng.choice([4, 5, 5])
@@ -90,7 +95,8 @@ class C20(Check):
                 log = s.log
 
                 def make(which):
-                    excs = [HIER[OUTCOMES[o]](i, which) if OUTCOMES[o] else None for i, o in enumerate(case['out'])]
+                    excs = [(aio.CancelledError(i, which) if OUTCOMES[o] == 'Cancel' else HIER[OUTCOMES[o]](i, which))
+                            if OUTCOMES[o] else None for i, o in enumerate(case['out'])]
 
                     async def aw(i):
                         log.append(('start', which, i, s.now))
@@ -100,8 +106,9 @@ class C20(Check):
                             if excs[i] is not None:
                                 raise excs[i]
                             return ('v', i)
-                        except aio.CancelledError:
-                            log.append(('cancelled', which, i, s.now))
+                        except aio.CancelledError as ce:
+                            if ce is not excs[i]:
+                                log.append(('cancelled', which, i, s.now))
                             raise
                         finally:
                             log.append(('finish', which, i, s.now))
@@ -109,7 +116,16 @@ class C20(Check):
                     aws = []
                     for i in range(n):
                         k = case['kinds'][i]
-                        if k == 'coro':
+                        if k == 'done' and not isinstance(excs[i], aio.CancelledError):
+                            fut = loop.create_future()
+                            log.append(('start', which, i, s.now))
+                            log.append(('finish', which, i, s.now))
+                            if excs[i] is not None:
+                                fut.set_exception(excs[i])
+                            else:
+                                fut.set_result(('v', i))
+                            aws.append(fut)
+                        elif k == 'coro' or k == 'done':
                             aws.append(aw(i))
                         elif k == 'task':
                             aws.append(loop.create_task(aw(i)))
@@ -163,7 +179,15 @@ class C20(Check):
         st['executions'] += 1
         got, excs, fin_first, fin_end = box['g']
         exp = [e for e in excs if e is not None and isinstance(e, only)]
-        if len(got) != len(exp) or any(a is not b for a, b in zip(got, exp)):
+
+        def same(a, b):
+            # a child that ended in CancelledError is reported by asyncio.gather as *a* CancelledError, not
+            # necessarily the instance that was raised: identity is demanded for everything else
+            if isinstance(b, aio.CancelledError):
+                return isinstance(a, aio.CancelledError)
+            return a is b
+
+        if len(got) != len(exp) or any(not same(a, b) for a, b in zip(got, exp)):
             res.violate('C20:wrong-exceptions', 'yielded exceptions are not exactly the raised instances of `only` in input order',
                         got=[repr(e) for e in got], expected=[repr(e) for e in exp], only=case['only'])
         if got and fin_first != n:
@@ -177,7 +201,7 @@ class C20(Check):
         kind, val, excs2 = box['r']
         exp2 = [e for e in excs2 if e is not None and isinstance(e, only)]
         if exp2:
-            if kind != 'raise' or val is not exp2[0]:
+            if kind != 'raise' or not same(val, exp2[0]):
                 res.violate('C20:raise_first_exc-wrong', 'raise_first_exc did not raise the first matching exception in input order',
                             got=repr(val), expected=repr(exp2[0]))
         elif kind != 'ret' or val is not None:
@@ -195,6 +219,10 @@ class C20(Check):
             st['subclass_matched'] += 1
         if any(isinstance(e, H) for e in excs if e is not None):
             st['baseexception_only_raised'] += 1
+        if any(isinstance(e, aio.CancelledError) for e in excs if e is not None):
+            st['own_cancellederror_raised'] += 1
+        if 'done' in case['kinds']:
+            st['already_settled_future_in_input'] += 1
         res.nontrivial = n >= 2 and ((nfail >= 1 and reordered) or nfail >= 2)
         if res.nontrivial:
             st['nontrivial'] += 1
@@ -204,7 +232,7 @@ class C20(Check):
 
     def floors(self, tier):
         k = 1 if tier == 'quick' else 10
-        return {'nontrivial': 10000 * k, 'two_or_more_failures': 8000 * k, 'finish_order_differs_with_failure': 8000 * k,
+        return {'own_cancellederror_raised': 5000 * k, 'already_settled_future_in_input': 5000 * k, 'nontrivial': 10000 * k, 'two_or_more_failures': 8000 * k, 'finish_order_differs_with_failure': 8000 * k,
                 'subclass_matched': 3000 * k, 'baseexception_only_raised': 5000 * k}
 
     def extra_evidence(self, tier, agg):
